@@ -739,6 +739,28 @@ def run_integrate(stg, c, R, fr, meta):
                         check_axis(R, obj.ts, P.ts, 4 * common.ulp(max(T * P.dt, 1e-300)), f'{kk}:ts', 'timeseries_ts', T=T, F=F)
                         check_kept(R, P, obj, op, fr, df=False, dt=True)
                     meta.look(R, P, obj, op)
+    # integration reads the frame: every pixel of the parent is as it was
+    R.check(np.array_equal(np.asarray(fr.data), P.data), 'integrate:changed-parent-data', changed=int((np.asarray(fr.data) != P.data).sum()))
+    # ... also when some samples are blanked (NaN) or saturated (inf): they stay where they are, and the mean / sum of a column
+    # or row that contains one is not a finite number made up from the others
+    if T >= 2 and F >= 3:
+        R.bucket('integrate:non-finite-samples')
+        probe = stg.Frame.from_data(P.df, P.dt, float(fr.fch1), P.asc, np.array(P.data, dtype=np.float64, copy=True))
+        i_n, j_n, j_i = int(T // 2), int(F // 3), int(F - 1)
+        probe.data[i_n, j_n] = np.nan
+        probe.data[0, j_i] = np.inf
+        before = np.array(probe.data, copy=True)
+        for spelling in ('t', 'f'):
+            for mode in ('mean', 'sum'):
+                with np.errstate(all='ignore'), common.quiet():
+                    out = np.asarray(stg.integrate(probe, axis=spelling, mode=mode), dtype=float)
+                R.check(np.array_equal(np.asarray(probe.data), before, equal_nan=True), 'integrate:changed-parent-data:non-finite-samples',
+                        axis=spelling, mode=mode)
+                if spelling == 't' and out.shape == (F,):
+                    R.check(bool(np.isnan(out[j_n])) and bool(np.isinf(out[j_i]) or np.isnan(out[j_i])), 'integrate:non-finite-sample-ignored',
+                            axis='t', mode=mode, nan_col=float(out[j_n]), inf_col=float(out[j_i]))
+                elif spelling == 'f' and out.shape == (T,):
+                    R.check(bool(np.isnan(out[i_n])), 'integrate:non-finite-sample-ignored', axis='f', mode=mode, nan_row=float(out[i_n]))
     R.mark_nontrivial(F >= 2 and T >= 2)
 
 
